@@ -40,7 +40,6 @@ def field(item, key):
 def check_schedule(ctx, fe, schedule, out, sig):
     """schedule: list of (msg, fragment index); out: driver/impl output"""
     lines = [m.lines[i] for m, i in schedule]
-    inp = {'frontend': fe, 'lines': [l.hex() for l in lines]}
     exp = []
     got_frags = {}
     for pos, (m, i) in enumerate(schedule):
@@ -48,6 +47,12 @@ def check_schedule(ctx, fe, schedule, out, sig):
         if len(got_frags[id(m)]) == m.n:
             exp.append((pos, m.expected()))
             got_frags[id(m)] = set()
+    compare(ctx, fe, lines, exp, out, sig)
+
+
+def compare(ctx, fe, lines, exp, out, sig):
+    """exp: expected deliveries [(input position, {raw, pl, bits, valid})] from the construction"""
+    inp = {'frontend': fe, 'lines': [l.hex() for l in lines], 'expected': [[p, e] for p, e in exp]}
     got = []
     if 'CRASH' in out:
         ctx.fail('reader crashed', inp, 'no exception', out[-100:], dict(sig, kind='crash'))
@@ -81,7 +86,9 @@ class Prop:
         shapes = [[(2, '1', 'A')], [(3, '1', 'A')], [(2, '1', 'A'), (2, '2', 'A')], [(2, '1', 'A'), (2, '1', 'B')],
                   [(2, '', 'A'), (2, '', 'B')], [(3, '1', 'A'), (2, '2', 'B')], [(2, '1', 'A'), (3, '1', 'B'), (1, '', 'A')],
                   [(2, '3', 'A'), (2, '4', 'A'), (2, '5', 'B')], [(1, '5', 'A'), (2, '1', 'B')],
-                  [(2, '1', ''), (2, '1', '1')], [(2, '9', 'A'), (1, '', 'B'), (1, '0', 'A')]]
+                  [(2, '1', ''), (2, '1', '1')], [(2, '9', 'A'), (1, '', 'B'), (1, '0', 'A')],
+                  # sequence id 0 and "no sequence id" are different slots
+                  [(2, '0', 'A'), (2, '', 'A')], [(3, '0', 'B'), (2, '', 'B')], [(2, '0', 'A'), (2, '', 'A'), (2, '0', 'B')]]
         if tier == 'thorough':
             shapes += [[(3, '1', 'A'), (3, '2', 'A')], [(3, '1', 'A'), (3, '1', 'B'), (2, '2', 'A')], [(4, '1', 'A'), (2, '2', 'B')]]
         for shape in shapes:
@@ -111,8 +118,11 @@ class Prop:
     def random_schedules(self, rng, count):
         out = []
         for _ in range(count):
-            slots = [(str(s), c) for s in range(1, 10) for c in ('A', 'B')] + [('', 'A'), ('', 'B')]
+            slots = [(str(s), c) for s in range(0, 10) for c in ('A', 'B')] + [('', 'A'), ('', 'B')]
             rng.shuffle(slots)
+            if rng.random() < 0.3:       # force the delicate neighbours into flight together
+                first = [('0', 'A'), ('', 'A'), ('0', 'B'), ('', 'B')]
+                slots = first + [x for x in slots if x not in first]
             k = rng.randint(2, 8)
             seqs = []
             for seq, chan in slots[:k]:
@@ -140,8 +150,10 @@ class Prop:
 
     def replay(self, ctx, payload):
         inp = payload['failure']['input']
-        print(impl.step('stream %s 0 %s' % (inp['frontend'], ' '.join(inp['lines'])))[:3000])
-        return True
+        out = impl.step('stream %s 0 %s' % (inp['frontend'], ' '.join(inp['lines'])))
+        compare(ctx, inp['frontend'], [bytes.fromhex(x) for x in inp['lines']],
+                [(p, e) for p, e in inp['expected']], out, {'frontend': inp['frontend']})
+        return not ctx.failures
 
 
 PROP = Prop()
